@@ -62,15 +62,22 @@ FAULT_PROPS = {
     "CLONE_SELF": {"C15"},
     "SERDE_SHAPE": {"C20"},
     "FMT_SHAPE": {"C19"},
-    "SHAPE_DICT": {"C01", "C11", "C13", "C05", "C14"},
-    "SHAPE_SET": {"C07", "C08", "C05", "C14"},
+    "KEY_IDENTITY": {"C12"},
+    "SHAPE_BORROW": {"C01", "C07"},
+    "SHAPE_DISJOINT": {"C13", "C18"},
+    "DROP_LEDGER": {"C02", "C10", "C04"},
+    "PROVIDED": {"C09", "C10", "C08"},
+    "SHAPE_DICT": {"C01", "C03", "C05", "C10", "C11", "C13", "C14", "C15", "C16"},
+    "SHAPE_SET": {"C03", "C05", "C07", "C08", "C10", "C14", "C15", "C16"},
+    "DUP_KEY": {"C04", "C05", "C15", "C16", "C01", "C07", "C11"},
     "EXTEND_REF": {"C16"},
     "MIRI": None,
     "CRASH": None,  # every property
 }
 # suites whose base cases get every fault position of the listed kinds
 # (1 eq, 2 clone, 3 drop, 4 closure / source next)
-FAULT_SUITES = {"C04": (1, 2, 3, 4), "C10": (3, 4), "C15": (2,), "C16": (4,)}
+FAULT_SUITES = {"C04": (1, 2, 3, 4), "C10": (3, 4), "C15": (2, 4), "C16": (4,), "C02": (3, 4), "C03": (4,), "C05": (1, 3, 4),
+                "C11": (4,), "C17": (4,)}
 LEVEL = {"C06": "other"}
 
 
@@ -449,9 +456,11 @@ def nostd_check():
     features, src/lib.rs still declares no_std outside std/doc/test, and no code path names std or alloc.
     When the nightly toolchain can expand the crate, the expansion must carry #![no_std] too.
     returns (ok, text)"""
-    r2 = sh("cd /repo && CARGO_TARGET_DIR=" + CACHE + "/target-nostd cargo build --lib --offline 2>&1", timeout=900)
-    if r2.returncode != 0:
-        return False, "cargo build --lib (no features) failed:\n" + r2.stdout[-1500:]
+    for feats in ("", "serde", "std", "serde std"):
+        r2 = sh("cd /repo && CARGO_TARGET_DIR=" + CACHE + "/target-nostd cargo build --lib --offline --no-default-features"
+                + (f' --features "{feats}"' if feats else "") + " 2>&1", timeout=900)
+        if r2.returncode != 0:
+            return False, f"cargo build --lib --no-default-features --features '{feats}' failed:\n" + r2.stdout[-1500:]
     lib = open("/repo/src/lib.rs").read()
     if not re.search(r'#!\[cfg_attr\(\s*all\(not\(feature = "std"\), not\(doc\), not\(test\)\),\s*no_std\s*\)\]', lib):
         return False, "src/lib.rs no longer declares no_std outside std/doc/test"
@@ -650,7 +659,7 @@ def check(prop, tier, replay=None):
                     corpus += [l.strip() for l in open(os.path.join(cdir, f)) if l.strip() and not l.startswith("#")]
         base = gen.suite(prop, rng, tier)
         if prop in FAULT_SUITES:
-            base = add_faults(base, tmp, FAULT_SUITES[prop], None if prop == "C04" else (60 if tier == "quick" else 600))
+            base = add_faults(base, tmp, FAULT_SUITES[prop], None if prop == "C04" else ((60 if tier == "quick" else 600) if prop in ("C10", "C15", "C16") else (30 if tier == "quick" else 300)))
         cases = corpus + base
     cpath = tmp + ".cases"
     with open(cpath, "w") as f:
@@ -691,7 +700,7 @@ def check(prop, tier, replay=None):
                         run_stats["objects_tracked_by_ledger"] += int(m.group(4))
 
     # 4b. element-shape oracles (no-Drop types with an observable Clone, ZST, Copy, large, heap-owning)
-    if not replay and prop in ("C01", "C03", "C05", "C06", "C07", "C08", "C09", "C10", "C11", "C13", "C14", "C15", "C16", "C19", "C20"):
+    if not replay:
         for prof in ("debug", "release"):
             fp = f"{tmp}.{prof}.shapes"
             r = sh(f"{CACHE}/target/{prof}/mm-harness --shapes {fp}", timeout=120)
